@@ -886,7 +886,8 @@ func (vx *Vaxis) handleSequence(seq ansi.Sequence) {
 					return
 				}
 				switch seq.Parameters[1][0] {
-				case 1, 2:
+				case 1, 2, 3:
+					// 3: permanently set
 					vx.PostEventBlocking(unicodeCoreCap{})
 				}
 			case 2031:
